@@ -63,6 +63,8 @@ pub enum Op {
     SyncTa,
     RenewTa,
     RemovePublisher { publisher: String },
+    /// (re-)create the publisher for an existing CA with its current id
+    AddPublisher { ca: String },
     SessionReset,
     UpdateId { ca: String },
     /// queue the real UpdateSnapshots task (due now)
@@ -292,6 +294,19 @@ impl World {
                     pub_h(publisher), &self.actor, &self.krill,
                 ),
             ),
+            Op::AddPublisher { ca: c } => {
+                let r = (|| {
+                    let handle = ca(c);
+                    let cert_auth = self.krill.ca_manager().get_ca(&handle)?;
+                    let req = rpki::ca::idexchange::PublisherRequest::new(
+                        cert_auth.id_cert().base64.clone(),
+                        handle.convert(),
+                        None,
+                    );
+                    self.krill.repo_manager().create_publisher(req, &self.actor)
+                })();
+                OpOutcome::from_res(r)
+            }
             Op::SessionReset => {
                 OpOutcome::from_res(self.krill.repo_manager().rrdp_session_reset())
             }
